@@ -103,6 +103,7 @@ Record InvW (stk : list nat) (t : nat) (s : state) : Prop := {
   inv_run_src : forall k x, In k stk -> In x (srcs (getn s k)) ->
                 In x (tracked_of (rlog (getn s k))) \/ t <= x;
   inv_run_ge : forall k, In k stk -> t <= k;
+  inv_run_range : forall k, In k stk -> k < length p;
   inv_run_nc : forall k, In k stk -> memob k = true -> st (getn s k) <> Clean
 }.
 
